@@ -661,19 +661,19 @@ pub fn run(rng: &mut Rng, n: usize) {
     while k < n {
         match rng.below(10) {
             0..=3 => {
-                frames(rng);
+                case("frame.case", "c19.library_call_panics", || frames(rng));
                 k += 1
             }
             4 => {
-                inverse_frames(rng);
+                case("frame.case", "c19.library_call_panics", || inverse_frames(rng));
                 k += 3
             }
             5..=7 => {
-                svd_case(rng);
+                case("frame.case", "c19.library_call_panics", || svd_case(rng));
                 k += 1
             }
             _ => {
-                planes(rng);
+                case("frame.case", "c19.library_call_panics", || planes(rng));
                 k += 2
             }
         }
